@@ -185,9 +185,23 @@ impl Storage {
             let writer = writer.clone();
             let perf_counter = perf_counter.clone();
             threadpool.execute(move || {
-                let wal_data = writer.load(&wal_file).unwrap();
+                // A failure is sent to the recovering thread, which reports it to the caller.
+                // Panicking here would leave that thread waiting for this result forever.
+                let wal_data = match writer.load(&wal_file) {
+                    Ok(wal_data) => wal_data,
+                    Err(err) => {
+                        tx.send(Err(format!("Failed to load WAL segment {}: {}", wal_file.display(), err))).unwrap();
+                        return;
+                    }
+                };
                 perf_counter.disk_read_wal(wal_data.len() as u64);
-                let wal_segment = WalSegment::deserialize(&wal_data).unwrap();
+                let wal_segment = match WalSegment::deserialize(&wal_data) {
+                    Ok(wal_segment) => wal_segment,
+                    Err(err) => {
+                        tx.send(Err(format!("Failed to decode WAL segment {}: {}", wal_file.display(), err))).unwrap();
+                        return;
+                    }
+                };
                 log::info!(
                     "Found wal segment {} with id {} and {} rows in {} tables",
                     wal_file.display(),
@@ -200,13 +214,14 @@ impl Storage {
                         .sum::<usize>(),
                     wal_segment.data.tables.len(),
                 );
-                tx.send((wal_file, wal_segment, wal_data.len() as u64)).unwrap();
+                tx.send(Ok((wal_file, wal_segment, wal_data.len() as u64))).unwrap();
             });
         }
 
         let mut wal_size = 0;
         let mut wal_segments = Vec::new();
-        for (path, wal_segment, size) in rx.iter().take(num_wal_files) {
+        for result in rx.iter().take(num_wal_files) {
+            let (path, wal_segment, size) = result.unwrap_or_else(|err| panic!("{}", err));
                 if wal_segment.id < earliest_uncommited_wal_id {
                     if readonly {
                         log::info!("Skipping wal segment {}", path.display());
